@@ -27,7 +27,8 @@ from liesel.goose.epoch import EpochConfig, EpochType
 PROPERTY = "C06"
 RULE = ("cases = (target family, dimension 1-5 or 12 / 20 / 28, key split and listing order, kernel RW | IWLS | IWLS with user information | MH with drift "
         "proposal, step size 0.01-2, current point bulk / tail, seed) x 256 PRNG keys; non-trivial = some transition with 0.01 < a* < 0.99 and "
-        "|grad log pi(x)| > 0.1; distinct = SHA-1 of the case")
+        "|grad log pi(x)| > 0.1; zero_density_current: RW / MH started outside the support, non-trivial = P(proposal in support) in (0.02, 0.98); "
+        "distinct = SHA-1 of the case")
 ASSUMPTIONS = [
     "oracle in float64 with analytic gradients / Hessians; reported float32 acceptance compared on the log scale with tolerance "
     "5e-3 + 1e-3 * |log-density terms| + float32 conditioning of the Cholesky solve (skipped when both are < 1e-30)",
